@@ -88,6 +88,12 @@ def handle : List String → Option String
   | "c09.facets" :: rest => do
     let m ← run femP rest
     some (reply (toFacets faceTable m))
+  | "c09.surface_keep" :: rest => do
+    let m ← run femP rest
+    some (reply (toSurfaceKeep faceTable m))
+  | "c09.facets_all" :: rest => do
+    let m ← run femP rest
+    some (reply (toFacetsAll faceTable m))
   | "c06.to_meshio" :: rest => do
     let v ← run (do
       let m ← meshP
